@@ -327,9 +327,8 @@ Definition spec_step (sp : spec) (o : op) : spec :=
   end.
 
 (* well-formed operation: handles exist; markers only together with text (CCodeWriter: one marker
-   per newline of s); an inserted buffer is a root and not the tree the target lives in.
-   strict = true additionally restricts reset to holes without insertion points inside. *)
-Definition wf_op (strict : bool) (sp : spec) (o : op) : bool :=
+   per newline of s); an inserted buffer is a root and not the tree the target lives in. *)
+Definition wf_op (sp : spec) (o : op) : bool :=
   let n := sp_n sp in
   match o with
   | ONew => true
@@ -341,14 +340,13 @@ Definition wf_op (strict : bool) (sp : spec) (o : op) : bool :=
                   | None => false
                   end
   | OCommit b => b <? n
-  | OReset b =>
-      (b <? n) && (negb strict || match sregion sp b with Some body => negb (has_open body) | None => false end)
+  | OReset b => b <? n
   end.
 
-Fixpoint wf_hist (strict : bool) (sp : spec) (ops : list op) : bool :=
+Fixpoint wf_hist (sp : spec) (ops : list op) : bool :=
   match ops with
   | [] => true
-  | o :: r => wf_op strict sp o && wf_hist strict (spec_step sp o) r
+  | o :: r => wf_op sp o && wf_hist (spec_step sp o) r
   end.
 
 Definition spec_run (ops : list op) : spec := fold_left spec_step ops init_spec.
